@@ -246,11 +246,13 @@ func (l *Linter) lintIfStatement(stmt *ast.IfStatement, ctx *context.Context) ty
 	l.lint(stmt.Consequence, ctx)
 
 	for _, a := range stmt.Another {
+		l.ignore.SetupClause(a.Leading)
 		l.lintIfCondition(a.Condition, ctx)
 		l.lint(a.Consequence, ctx)
 	}
 
 	if stmt.Alternative != nil {
+		l.ignore.SetupClause(stmt.Alternative.Leading)
 		l.lint(stmt.Alternative.Consequence, ctx)
 	}
 
@@ -310,16 +312,22 @@ func (l *Linter) lintSwitchStatement(stmt *ast.SwitchStatement, ctx *context.Con
 	}
 
 	for _, c := range stmt.Cases {
+		l.ignore.SetupClause(c.Leading)
 		for _, s := range c.Statements {
 			switch s.(type) {
 			case *ast.BreakStatement, *ast.FallthroughStatement:
-				break // parser already made sure break/fallthrough is at the end.
+				// parser already made sure break/fallthrough is at the end,
+				// nothing to lint but they may have ignoring comments as well
+				l.ignore.SetupStatement(s.GetMeta())
+				l.ignore.TeardownStatement(s.GetMeta())
 			default:
 				// statements in a case clause may have ignoring comments as well
 				l.lintStatement(s, ctx)
 			}
 		}
 	}
+	// comments before the closing brace
+	l.ignore.SetupClause(stmt.Infix)
 
 	return types.NeverType
 }
